@@ -287,6 +287,36 @@ def run(ctx):
                             gl, wl = (by.get(ip) or '').split('\n'), want.split('\n')
                             fail('multi_differs_from_single', dict(inp, target=n, format='text'),
                                  {'only_in_multi': [l for l in gl if l not in wl][:6]}, {'only_in_single': [l for l in wl if l not in gl][:6]})
+    # (f) randomly generated fleets: 8 random targets (lists over the database, RSA keys and moduli of random sizes, several products) in one run on one
+    # pool thread, each report compared with that target's single-target run in a process of its own
+    from ssh_audit.ssh2_kexdb import SSH2_KexDB as _DB
+    for fl in range(ctx.scale(2, 25)):
+        specs = [mc.gen_spec(r, _DB.MASTER_DB) for _ in range(8)]
+        if fl % 2 == 0:
+            specs[5] = dict(specs[1])           # the same target twice, and a near-twin with other key sizes
+            specs[6] = dict(specs[1], rsa_bits=4096 if specs[1]['rsa_bits'] != 4096 else 1024, gex_bits=3072)
+        fservers = {'S%d' % i: mc.server_from_spec(sp) for i, sp in enumerate(specs)}
+        lst = ['S%d' % i for i in range(8)]
+        extra = ['-j'] if fl % 2 else []
+        code, out, hosts, net = mc.run_targets(lst, fservers, threads=r.choice([1, 1, 2]), extra=extra)
+        refs = mc.isolated_singles([(sp, ip, extra) for sp, ip in zip(specs, hosts)])
+        cov.add(('fleet', json.dumps(specs, sort_keys=True), tuple(extra)), True, tags=['random-fleet'])
+        for m_ in mc_direct_lines():
+            out = out.replace(m_ + '\n', '')
+        for sp, ip in zip(specs, hosts):
+            scode, sout = refs[(json.dumps(sp, sort_keys=True), ip, tuple(extra))]
+            inp = {'fleet': specs, 'args': extra, 'target': ip}
+            if extra:
+                try:
+                    got = [e_ for e_ in json.loads(out) if isinstance(e_, dict) and e_.get('target') == '%s:22' % ip]
+                    same = bool(got) and got[0] == json.loads(sout)
+                except ValueError:
+                    same = sout.strip() in out
+            else:
+                by = {mc.block_target(b): mc.normalise_block(b) for b in mc.split_text_blocks(out)}
+                same = by.get(ip) == mc.normalise_block(sout)
+            if not same:
+                fail('multi_differs_from_single', inp, 'the report of this target in the fleet run', 'its single-target report')
     # (d) policy verdicts are per target
     d = tempfile.mkdtemp(prefix='verif_c07_')
     try:
@@ -328,6 +358,26 @@ def replay(obj):
     inp = f['input']
     servers = mc.arch_servers()
     servers.update(mc.edit_then_abort_servers())
+    if 'fleet' in inp:
+        specs, extra = inp['fleet'], inp['args']
+        fservers = {'S%d' % i: mc.server_from_spec(sp) for i, sp in enumerate(specs)}
+        code, out, hosts, net = mc.run_targets(['S%d' % i for i in range(len(specs))], fservers, threads=1, extra=extra)
+        refs = mc.isolated_singles([(sp, ip, extra) for sp, ip in zip(specs, hosts)])
+        bad = 0
+        for sp, ip in zip(specs, hosts):
+            scode, sout = refs[(json.dumps(sp, sort_keys=True), ip, tuple(extra))]
+            if extra:
+                try:
+                    got = [e_ for e_ in json.loads(out) if isinstance(e_, dict) and e_.get('target') == '%s:22' % ip]
+                    same = bool(got) and got[0] == json.loads(sout)
+                except ValueError:
+                    same = sout.strip() in out
+            else:
+                by = {mc.block_target(b): mc.normalise_block(b) for b in mc.split_text_blocks(out)}
+                same = by.get(ip) == mc.normalise_block(sout)
+            print('target %s: %s' % (ip, 'same as single-target run' if same else 'DIFFERS from single-target run'))
+            bad |= not same
+        return 1 if bad else 0
     if 'targets' not in inp:
         print(json.dumps(f, indent=1)[:1500])
         import sys
